@@ -403,8 +403,12 @@ static Fate gen_fate(Sim *S, int stream, uint64_t ord, uint64_t now, const Dgram
 	Fate f;
 	const FaultCfg &c = S->faults;
 	if (c.dr1 > c.dr0 && now >= c.dr0 && now < c.dr1 && d.src_host == c.dr_host) { f.drop = true; S->count("fault.drought_drop"); return f; }
-	if (!c.enabled() || now < c.t0 || now >= c.t1) return f;
 	uint64_t key = ((uint64_t)stream << 40) ^ ord;
+	if (c.rawlate && d.data.size() >= 4 && d.data[0] == 0x10 && d.data[1] == 0xd1 && d.data[2] == 0x9e) {
+		if (d.src.port == 53) { f.drop = true; S->count("fault.rawlate.reply_dropped"); return f; }
+		if ((d.data[3] >> 4) == 1) { f.dup = 1 + (int)(S->D("fate.rawlate.n", key) % 2); f.dup_delay = S->R("fate.rawlate.d", key, c.rawlate_min, c.rawlate_max); S->count("fault.rawlate.login_copy", f.dup); return f; }
+	}
+	if (!c.enabled() || now < c.t0 || now >= c.t1) return f;
 	if (c.p_redeliv > 0 && d.dst.port == 53 && d.data.size() > 12 && !(d.data[2] & 0x80) && S->U("fate.rd", key) < c.p_redeliv) {
 		int n = 1 + (int)(S->D("fate.rdn", key) % 3);
 		if (S->U("fate.rdmany", key) < 0.08) n += 5;     // an impatient relay hammering
